@@ -1,6 +1,150 @@
 package c06
 
-import "testing"
+// C15 has two parts:
+//
+//  1. the C06 driver and harness (props/C06/c06_verif_test.go + tq_harness.go: the real transfer queue on the controlled
+//     scheduler with a virtual clock, scripted batch client and scripted transfer implementation; retry / expiry
+//     configurations), unchanged;
+//  2. "adapters" (c15_wire_verif_test.go + tq_adapters_harness.go): the real transfer adapters against a scripted HTTP
+//     peer, the same clauses judged at the wire.
+//
+// This file is verifMain("C15") of the shared driver plus the second part (the shared driver is not modified).
 
-// C15 shares the C06 driver and harness (virtual clock observable; retry/expiry configurations).
-func TestVerifC15(t *testing.T) { verifMain("C15") }
+import (
+	"fmt"
+	"os"
+	"path/filepath"
+	"strings"
+	"testing"
+	"time"
+
+	"github.com/git-lfs/git-lfs/v3/tq"
+	"github.com/git-lfs/git-lfs/v3/verifx/vx"
+)
+
+func TestVerifC15(t *testing.T) { verifMainC15() }
+
+func onlyMatches(only, name string) bool {
+	return only == "" || only == name || (only == "adapters" && strings.HasPrefix(name, "adapters-")) || (only == "queue" && !strings.HasPrefix(name, "adapters-"))
+}
+
+func verifMainC15() {
+	const prop = "C15"
+	scratch = filepath.Join(os.Getenv("VERIF_SCRATCH"), "tqfiles")
+	tq.VerifPrepareScratch(scratch, os.Getenv("VX_WORKER") == "")
+	c := vx.NewCheck(prop, "model_checking")
+	byName := map[string]space{}
+	for _, s := range spaces(prop, true) {
+		byName[s.name] = s
+	}
+	if os.Getenv("VX_WORKER") != "" {
+		vx.ServeWorker(func(arg string) vx.RunFunc {
+			if sc, ok := wireScenarioByName(arg); ok {
+				return wireRun(sc)
+			}
+			return runFor(prop, byName[arg])
+		})
+		return
+	}
+	nw := 16
+	pool := vx.NewProcPool(nw, []string{os.Getenv("VERIF_SELF"), "-test.run", "^TestVerif" + prop + "$"}, os.Environ())
+	defer pool.Close()
+	c.Rule = "PART 1 (queue): one execution = the real tq.TransferQueue + adapterBase (channel/sync/time operations rewritten onto the controlled scheduler) driven by a producer (Add* then Wait), watcher consumers, a scripted batch client and a scripted transfer implementation; " +
+		"enumerated: every queue configuration of the space x every schedule with <= P preemptions (a preemption = running another thread, or letting virtual time pass, while the current thread is enabled; switches at blocking points and choices between ready select cases are free) x every environment script with <= D deviations from the nominal answer " +
+		"(batch call: 429+Retry-After / retriable / fatal / 4xx; per object: no action / per-object error / omitted / listed twice (two actions, two error entries, error then action, action then error) / expired action / extra unknown oid; upload source file absent(+Missing) / wrong size; adapter: retriable / retry-later / fatal / 422 / slow; adapter start failure). " +
+		"PART 2 (adapters-*): one execution = one object handed (Begin, Add, End; a second Add only after a plainly retriable failure, as the queue does) to the REAL basic download / basic upload / tus upload adapter of package tq (incl. verifyUpload and the lfsapi/lfshttp client), whose requests go to a scripted raw-TCP HTTP/1.1 peer; " +
+		"enumerated: download: every .part state {absent, valid prefix, garbage prefix, all but one byte, exact, longer} x every answer of the alphabet to the 1st request x every answer to the 2nd request x at most E non-nominal answers to later requests; " +
+		"uploads: verify action {present, absent} x every answer to each of the first 3-4 requests (PUT | HEAD, PATCH | verify POSTs) x at most E non-nominal later answers. Every data response is streamed in two parts with the second part held until the client consumes, closes, or asks for the object again, so that 'two transfers in progress' is an observed fact. " +
+		"distinct_nontrivial = distinct (configuration, environment script) pairs explored; states = distinct (configuration, script, schedule length | request sequence, outcome) classes; transitions = scheduling decisions executed (part 1) + requests served (part 2)"
+	c.Assumptions = []string{
+		"the batch client and the transfer implementation are scripted fakes behind the real BatchClient / transferImplementation interfaces; error values are built with the same constructors lfshttp uses (NewRetriableLaterError, NewRetriableError, NewFatalError, Wrap)",
+		"only synchronisation operations are scheduling points (plain memory accesses between them are not interleaved; a separate -race pass is the tool for those)",
+		"tq/meter.go is not rewritten; the queue runs with a nil *Meter (all Meter methods are nil-safe)",
+		"virtual clock: time advances only when every thread is blocked or as an explicit (costed) scheduling alternative",
+		"adapters part: the adapter code is the same rewritten package tq run under the deterministic default schedule (one worker, one object); the peer is a plain goroutine server on the loopback interface; 'the client consumed the response' is taken from the adapter's progress callback; what the queue does with the adapter's error is taken from the predicates the queue itself uses (errors.IsRetriableError / IsRetriableLaterError), the queue's obedience to them is what part 1 checks",
+		"adapters part, not enumerated: 401 challenges / credential helpers, redirects, answers sent before the request body was read, several objects or workers per adapter (the dedup of objects is the queue's job and is covered by part 1), custom and SSH adapters",
+	}
+	var parts []vx.Part
+	deadlineQ, deadlineT := 7*time.Minute, 40*time.Minute
+	only := os.Getenv("VERIF_ONLY")
+	if c.Replay != "" {
+		rf, err := c.LoadReplay()
+		if err != nil {
+			fmt.Println("TOOL-ERROR cannot load replay:", err)
+			os.Exit(2)
+		}
+		exec := func(p []vx.Point) vx.Result { return pool.ExecArg(p, rf.Scenario) }
+		r := exec(rf.Prefix)
+		st := vx.NewStats()
+		st.Absorb(rf.Prefix, &r, 0)
+		fmt.Printf("replayed scenario=%s outcome=%s violations=%d\n", rf.Scenario, r.Outcome, len(r.Violations))
+		for _, v := range r.Violations {
+			fmt.Printf("  %s: %s\n", v.Fingerprint, v.Msg)
+		}
+		if r.ToolErr != "" {
+			fmt.Printf("  tool error: %s\n", r.ToolErr)
+		}
+		pool.Close()
+		os.Exit(c.Finish([]vx.Part{{Scenario: rf.Scenario, Stats: st, Exec: exec}}, nil))
+	}
+	bounds := []map[string]interface{}{}
+
+	// part 2 first (cheap first): the real adapters at the wire
+	tAdapters := time.Now()
+	wireDeadline := time.Now().Add(90 * time.Second)
+	if c.Thorough() {
+		wireDeadline = time.Now().Add(8 * time.Minute)
+	}
+	if os.Getenv("VERIF_BUDGET_S") != "" {
+		wireDeadline = c.DeadlineAfter(0, 0)
+	}
+	for _, sc := range wireScenarios {
+		sc := sc
+		if !onlyMatches(only, sc.Name) || (sc.ThorOnly && !c.Thorough()) {
+			continue
+		}
+		env := sc.EnvQuick
+		if c.Thorough() {
+			env = sc.EnvThor
+		}
+		exec := func(p []vx.Point) vx.Result { return pool.ExecArg(p, sc.Name) }
+		e := &vx.Explorer{Name: sc.Name, BoundEnv: env, BoundSch: 0, BoundSum: -1, Exec: exec, Workers: nw, Deadline: wireDeadline}
+		t0 := time.Now()
+		st := e.Explore()
+		fmt.Printf("  scenario %-28s E<=%d executions=%d outcomes=%d scripts=%d exhaustive=%v %.1fs\n", sc.Name, env, st.Executions, len(st.Outcomes), len(st.NonTrivial), st.Exhaustive, time.Since(t0).Seconds())
+		parts = append(parts, vx.Part{Scenario: sc.Name, Stats: st, Exec: exec})
+		bounds = append(bounds, wireBounds(sc, env))
+	}
+	adaptersTook := time.Since(tAdapters)
+
+	// part 1: exactly the shared driver's loop
+	var todo []space
+	for _, sp := range spaces(prop, c.Thorough()) {
+		if onlyMatches(only, sp.name) {
+			todo = append(todo, sp)
+		}
+	}
+	total := c.DeadlineAfter(deadlineQ, deadlineT)
+	if os.Getenv("VERIF_BUDGET_S") == "" && !c.Thorough() {
+		total = total.Add(adaptersTook) // quick tier: part 1 keeps the time budget it had before part 2 existed
+	}
+	for i, sp := range todo {
+		sp := sp
+		exec := func(p []vx.Point) vx.Result { return pool.ExecArg(p, sp.name) }
+		slice := time.Until(total) / time.Duration(len(todo)-i)
+		if slice < 20*time.Second {
+			slice = 20 * time.Second
+		}
+		e := &vx.Explorer{Name: sp.name, BoundEnv: sp.d, BoundSch: sp.p, BoundSum: sp.sum, Exec: exec, Workers: nw, Deadline: time.Now().Add(slice)}
+		t0 := time.Now()
+		st := e.Explore()
+		fmt.Printf("  scenario %-22s P<=%d D<=%d executions=%d outcomes=%d scripts=%d exhaustive=%v %.1fs\n", sp.name, sp.p, sp.d, st.Executions, len(st.Outcomes), len(st.NonTrivial), st.Exhaustive, time.Since(t0).Seconds())
+		parts = append(parts, vx.Part{Scenario: sp.name, Stats: st, Exec: exec})
+		bounds = append(bounds, map[string]interface{}{"scenario": sp.name, "preemption_bound": sp.p, "deviation_bound": sp.d, "all_sync_ops_are_points": sp.all,
+			"adds": sp.adds, "batch_sizes": sp.batch, "workers": sp.workers, "max_retries": sp.retries, "watchers": sp.watch, "upload": sp.uploads})
+	}
+	c.Bounds["scenarios"] = bounds
+	code := c.Finish(parts, nil)
+	pool.Close()
+	os.Exit(code)
+}
